@@ -659,11 +659,20 @@ class MiniPy:
         env.set(s.name, Closure(s, env))
 
     def s_With(self, s, env):
+        exits = []
         for item in s.items:
             v = self.eval(item.context_expr, env)
+            if isinstance(v, NS) and callable(v.__dict__.get('_enter')):
+                v.__dict__['_enter']()
+            if isinstance(v, NS) and callable(v.__dict__.get('_exit')):
+                exits.append(v.__dict__['_exit'])
             if item.optional_vars is not None:
                 self.assign(item.optional_vars, v, env)
-        self.exec_block(s.body, env)
+        try:
+            self.exec_block(s.body, env)
+        finally:
+            for f in reversed(exits):
+                f()
 
     def s_Import(self, s, env):
         for a in s.names:
